@@ -276,6 +276,8 @@ def alphabet_positions(n, m=None):
 
 
 def VARIANT_PRED(t, v):
+    if v != 'deepcopy':
+        return False
     k = t.get('kind')
     return (k == 'small' and t['n'] + t['m'] <= 5) or (k == 'square' and t['n'] <= 4)
 
